@@ -9,7 +9,7 @@ import re
 
 from . import common, pipe, sem, serve
 
-PACK = 10
+PACK = 30
 
 
 def check_units(units):
@@ -151,7 +151,9 @@ def run(tier, pid="C01"):
         "rule": "semantic corpus: arithmetic trees over + - * // % with necessary/redundant parentheses (depth 2; thorough 3) on 12 argument tuples, float/mixed arithmetic, "
         "comparisons and boolean operators, evaluation-order probes, if/elif/else, while/break/continue, for over range/list/str, nested loops, documented scoping cases, compound "
         "assignment on variables/fields/indices, lists/dicts/slices/comprehensions/membership, string ops/index/slice/methods/f-strings, Option/Result/?/match with every pattern "
-        "form, enums with data, models/classes/inheritance/traits/newtypes/closures/consts/defaults/named args, and the five documented runtime errors; each unit is compiled by the "
+        "form, enums with data, models/classes/inheritance/traits/newtypes/closures/consts/defaults/named args, the five documented runtime errors, and every sequence of <= 2 "
+        "statements from a 44-statement grammar over two mutable ints (assignments, compound assignments, if/elif/else, for with break/continue, while, match, and/or; quick: all "
+        "singles and 44 x 6 pairs, thorough: all 44 x 44 pairs) on 4 argument pairs; each unit is compiled by the "
         "real CLI and compared with CPython on the transliterated text; non-trivial = distinct tag signatures among units that built, ran and matched",
         "samples": [{"unit": u.name, "decls": u.decls, "driver": u.driver} for u in common.pick_samples(accepted)],
         "exhaustive": True,
